@@ -196,7 +196,11 @@ Example C18_nonvacuous_history :
              status (now st) c (store_of st Witness.name) = 0%nat /\
              (* one block after the install: the honest proof at the installed height verifies *)
              gate (now st) (B "root") [] c (store_of st Witness.name) (0, 200) = 0%nat).
-Proof. vm_compute. split; [reflexivity|]. eexists. repeat split. Qed.
+Proof.
+  split; [vm_compute; reflexivity|].
+  cbv zeta. eexists.
+  split; [vm_compute; reflexivity|]. split; [reflexivity|]. split; vm_compute; reflexivity.
+Qed.
 
 Example C18_nonvacuous_contents :
   installable Witness.bscc /\ installable Witness.ethc /\ installable (Witness.tmc 5) /\ installable Witness.tssc /\
